@@ -386,8 +386,8 @@ LoopChecks(r) ==
 (* ---- fixedpoint : the true partition of separable data is a stable EM fixed point (C03) ---- *)
 \* r.truth flat (..L, N) class indices (0-based); r.post flat (..L, K, N) posteriors; r.protos flat (..L, K, D) (complex);
 \* r.fields canonical fields of the fitted model; delta = 1/16.  Means / mean directions are weighted averages: after a
-\* single iteration from a heavily blurred start they are still pulled towards the other classes (r.strict =
-\* iterations >= 2 or blur <= 0.1 marks the records where the closeness of means is claimed)
+\* few iterations from a heavily blurred start they are still pulled towards the other classes (r.strict =
+\* iterations >= 5 or blur <= 0.02 marks the records where the closeness of means is claimed)
 FPDelta == FPow2(-4)
 PAt(r, ld, k, a) == LET v == Get(r.protos, ld \o <<k, a>>) IN IF r.pcplx THEN v ELSE <<v, FZero>>
 PNorm2(r, ld, k) == FSum([a \in 1..r.protos.shape[Len(r.protos.shape)] |-> ZAbs2(PAt(r, ld, k, a - 1))])
